@@ -201,9 +201,33 @@ def replay(ctx, part, rows, seed, every):
 
 
 # ------------------------------------------------------------------ m = 3, orthant
+CONES3 = {"acute3d": [[1, -2, 4], [4, 1, -2], [-2, 4, 1]], "obtuse3d": [[5, 2, 8], [8, 5, 2], [2, 8, 5]], "k4": [[1, 0, 0], [0, 1, 0], [0, 0, 1], [1, 1, -1]],
+          "skew3d": [[2, 0, 0], [0, 2, 0], [-1, -1, 2]], "wedge3d": [[1, 0, 0], [0, 1, -1], [0, -1, 2], [1, 1, 0]]}
+
+
+def table3c(ctx, G=1, slacks=((0, 0, 0), (1, 1, 1), (1, 0, 1))):
+    """general 3-D integer cones, is_dominated only"""
+    mc = ("---- MODULE MCGeomTable3 ----\nEXTENDS GeomTable3\nTheSlacks == {%s}\nTheCones3 == {%s}\n====\n"
+          % (", ".join(to_tla(list(s)) for s in slacks), ", ".join(to_tla(W) for W in CONES3.values())))
+    cfg = "CONSTANTS\n G = %d\n Slacks <- TheSlacks\n Cones3 <- TheCones3\nINIT InitC\nNEXT Next\nINVARIANT DomThmC\n" % G
+    res, states = tlc.dump_states("MCGeomTable3", cfg, files={"MCGeomTable3.tla": mc}, workers=4, timeout=1500)
+    ctx.add_tlc(res, "GeomTable3/cones3/G=%d" % G)
+    if res.violated:
+        raise tlc.MachineryError("spec theorem %s fails in GeomTable3 (3-D cones)" % res.violated)
+    tlc.must_pass(res, "GeomTable3 cones3")
+    inv = {str(v): k for k, v in CONES3.items()}
+    rows = []
+    for st in states:
+        c, a = st["cfg"], st["ans"]
+        rows.append({"cone": inv[str([list(r) for r in c["W"]])], "r1": (tuple(c["r1"]["lo"]), tuple(c["r1"]["hi"])),
+                     "r2": (tuple(c["r2"]["lo"]), tuple(c["r2"]["hi"])), "s": tuple(c["s"]),
+                     "ans": {k: (list(v) if isinstance(v, tuple) else v) for k, v in a.items()}})
+    return rows
+
+
 def table3(ctx, G=1, slacks=((0, 0, 0), (1, 1, 1), (1, 0, 1))):
-    mc = ("---- MODULE MCGeomTable3 ----\nEXTENDS GeomTable3\nTheSlacks == {%s}\n====\n" % ", ".join(to_tla(list(s)) for s in slacks))
-    cfg = "CONSTANTS\n G = %d\n Slacks <- TheSlacks\nINIT Init\nNEXT Next\nINVARIANT DomThm\nINVARIANT CovThm\nINVARIANT PDomThm\n" % G
+    mc = ("---- MODULE MCGeomTable3 ----\nEXTENDS GeomTable3\nTheSlacks == {%s}\nTheCones3 == {}\n====\n" % ", ".join(to_tla(list(s)) for s in slacks))
+    cfg = "CONSTANTS\n G = %d\n Slacks <- TheSlacks\n Cones3 <- TheCones3\nINIT Init\nNEXT Next\nINVARIANT DomThm\nINVARIANT CovThm\nINVARIANT PDomThm\n" % G
     res, states = tlc.dump_states("MCGeomTable3", cfg, files={"MCGeomTable3.tla": mc}, workers=4, timeout=900)
     ctx.add_tlc(res, "GeomTable3/G=%d" % G)
     if res.violated:
@@ -225,10 +249,14 @@ def replay_rows3(args):
     import numpy as np
     from vopy.confidence_region import (RectangularConfidenceRegion, confidence_region_check_dominates,
                                         confidence_region_is_covered, confidence_region_is_dominated)
-    from vopy.order import ComponentwiseOrder
-    order = ComponentwiseOrder(3)
+    from vopy.order import ComponentwiseOrder, PolyhedralConeOrder
+    from vopy.ordering_cone import OrderingCone
+    orders3 = {"orth3": ComponentwiseOrder(3)}
     calls, bad = 0, []
     for r in rows:
+        if r["cone"] not in orders3:
+            orders3[r["cone"]] = PolyhedralConeOrder(OrderingCone(np.array(CONES3[r["cone"]], dtype=float)))
+        order = orders3[r["cone"]]
         for k in ([1.0, 2.0 ** -13, 0.3] if r.get("allscales") else [1.0]):
             R1 = RectangularConfidenceRegion(3, np.array(r["r1"][0], float) * k, np.array(r["r1"][1], float) * k)
             R2 = RectangularConfidenceRegion(3, np.array(r["r2"][0], float) * k, np.array(r["r2"][1], float) * k)
@@ -331,10 +359,16 @@ def replay_rows_ell(args):
     calls, bad = 0, []
     for r in rows:
         order = order_for(r["cone"])
-        for k in ([1.0, 1e-3, 30.0] if r.get("allscales") else [1.0]):
-            # scaling the geometry by k: centres * k, alpha * k (sigma unchanged), per-facet slack * k
-            E1 = EllipsoidalConfidenceRegion(2, np.array(r["c1"], float) * k, np.array(r["s1"]["S"], float), r["s1"]["a"] * k)
-            E2 = EllipsoidalConfidenceRegion(2, np.array(r["c2"], float) * k, np.array(r["s2"]["S"], float), r["s2"]["a"] * k)
+        for k in ([1.0, 1e-3, 30.0, -1e-4, -1e-3] if r.get("allscales") else [1.0]):
+            # scaling the geometry by |k|: centres * k, and either alpha * k with sigma unchanged (k > 0) or sigma * k^2 with alpha
+            # unchanged (k < 0: the same ellipsoid, with the smallness in the covariance - what a late GP posterior looks like)
+            if k > 0:
+                E1 = EllipsoidalConfidenceRegion(2, np.array(r["c1"], float) * k, np.array(r["s1"]["S"], float), r["s1"]["a"] * k)
+                E2 = EllipsoidalConfidenceRegion(2, np.array(r["c2"], float) * k, np.array(r["s2"]["S"], float), r["s2"]["a"] * k)
+            else:
+                k = -k
+                E1 = EllipsoidalConfidenceRegion(2, np.array(r["c1"], float) * k, np.array(r["s1"]["S"], float) * k * k, float(r["s1"]["a"]))
+                E2 = EllipsoidalConfidenceRegion(2, np.array(r["c2"], float) * k, np.array(r["s2"]["S"], float) * k * k, float(r["s2"]["a"]))
             forms = [("vector", np.array(r["slack"], float) * k)]
             if r["slack_scalar"]:
                 forms.append(("scalar", float(r["slack"][0]) * k))
@@ -375,3 +409,67 @@ def report(ctx, bad, prop):
         msg = "%s: code answered %s, specification says %s at scale %s for %s" % (
             b["kind"], b["got"], b["expected"], b["scale"], {k: v for k, v in b["row"].items() if k not in ("ans", "allscales")})
         ctx.violation(sig, b, msg)
+
+
+# ------------------------------------------------------------------ 3-D general cones through the (bound) evaluator
+def bind_refeval3(ctx, part, rows3):
+    """the evaluator's generic-dimension LP (m = 3 path) must agree with TLC's 3-D orthant table"""
+    W = [[1, 0, 0], [0, 1, 0], [0, 0, 1]]
+    bad = 0
+    for r in rows3:
+        if r["cone"] != "orth3":
+            continue
+        if part == "cov":
+            ok = [R.cov_box(W, r["r1"], r["r2"], r["s"], dt) for dt in (-1, 0, 1)] == r["ans"]["cov"]
+        else:
+            ok = [R.pdom_box(W, r["r1"], r["r2"], dt) for dt in (-1, 0, 1)] == r["ans"]["pdom"]
+        bad += 0 if ok else 1
+    ctx.extra["refeval_bound_rows3_" + part] = len(rows3)
+    if bad:
+        raise tlc.MachineryError("evaluator (3-D path) disagrees with the TLC orthant table on %d rows (%s)" % (bad, part))
+
+
+def eval3d_rows(args):
+    """random 3-D lattice boxes x general 3-D cones: code vs the evaluator's exact answer (robust rows only)"""
+    part, seed, count = args
+    import warnings
+    warnings.filterwarnings("ignore")
+    import numpy as np
+    from vopy.confidence_region import (RectangularConfidenceRegion, confidence_region_check_dominates, confidence_region_is_covered)
+    from vopy.order import PolyhedralConeOrder
+    from vopy.ordering_cone import OrderingCone
+    rnd = random.Random(seed)
+    orders = {k: PolyhedralConeOrder(OrderingCone(np.array(W, dtype=float))) for k, W in CONES3.items()}
+    calls, bad = 0, []
+    for _ in range(count):
+        cone = rnd.choice(list(CONES3))
+        W = CONES3[cone]
+
+        def box():
+            lo = [rnd.randint(0, 3) for _ in range(3)]
+            return (tuple(lo), tuple(l + rnd.choice([0, 0, 1, 2]) for l in lo))       # degenerate edges and shared coordinates are frequent
+        b1, b2 = box(), box()
+        s = rnd.choice([(0, 0, 0), (1, 1, 1), (1, 0, 2)])
+        k = rnd.choice([1.0, 0.125, 1e-2, 30.0])
+        R1 = RectangularConfidenceRegion(3, np.array(b1[0], float) * k, np.array(b1[1], float) * k)
+        R2 = RectangularConfidenceRegion(3, np.array(b2[0], float) * k, np.array(b2[1], float) * k)
+        if part == "cov":
+            tri = [R.cov_box(W, b1, b2, s, dt) for dt in (-1, 0, 1)]
+            if tri[0] != tri[2]:
+                continue
+            got = bool(confidence_region_is_covered(orders[cone], R1, R2, np.array(s, float) * k))
+            calls += 1
+            if got != tri[1]:
+                bad.append({"kind": "rect3d-cov", "row": {"cone": cone, "r1": b1, "r2": b2, "s": s}, "scale": k, "expected": tri[1], "got": got})
+        else:
+            tri = [R.pdom_box(W, b1, b2, dt) for dt in (-1, 0, 1)]
+            got = bool(confidence_region_check_dominates(orders[cone], R1, R2))
+            calls += 1
+            if got and not tri[0]:
+                bad.append({"kind": "rect3d-pdom-unsound", "row": {"cone": cone, "r1": b1, "r2": b2, "s": s}, "scale": k, "expected": False, "got": True})
+    return calls, bad
+
+
+def eval3d(ctx, part, seed, total):
+    out = pmap(eval3d_rows, [(part, seed * 100 + i, total // 16) for i in range(16)])
+    return sum(c for c, _ in out), [b for _, bs in out for b in bs]
